@@ -133,6 +133,9 @@ FlatEval(q) ==
         L == IF ~O.ok \/ q.lim = -1 THEN O ELSE SliceHead([O.t EXCEPT !.part = <<>>], q.lim, q.off)   \* LIMIT / OFFSET
     IN L
 
+(* a column defined by a constant expression (types.is_const of its dtype): a literal, or an expression over literals only *)
+IsConstCol(t, x) == x \in t.cst
+
 (* the flattened query yields the same visible data as the sequential meaning t *)
 SameVisible(r, t) ==
     /\ r.ok
